@@ -233,7 +233,7 @@ fn round(seed_rng: &mut Rng, round_no: u64) -> Value {
         rec.log(json!({"ev": "CallerHung"}));
         emit_batcher::verif::install(None);
         let trace = rec.finish(cap, false);
-        return json!({"trace": trace, "hang": true, "what": what,
+        return json!({"trace": trace, "hang": true, "what": what, "leaked": true,
                "case": {"round": round_no, "big": big, "cap": cap, "tokio": use_tokio, "fault_pct": fault_pct, "slow": slow, "threads": desc}});
     }
     // either a final flush, or a last send immediately followed by the drop of the sender: in both
@@ -410,6 +410,11 @@ fn main() {
             hangs += 1;
         }
         writeln!(out, "{}", v).unwrap();
+        if v["leaked"] == true {
+            // threads of this round are still inside the channel and would write into the next rounds' traces
+            out.flush().unwrap();
+            return;
+        }
         if hangs >= 2 {
             // every further hang would cost the watchdog time again; two witnesses are enough
             break;
